@@ -36,6 +36,10 @@ REQUIRED = {
 }
 
 
+# (container class, collection) whose elements are rendered inside the container's own SQL statement
+CONTAINED = {('Table', 'columns'), ('Table', 'indexes'), ('Enum', 'items')}
+
+
 def run(ctx, col: Collector):
     idx = ctx.idx
 
@@ -109,6 +113,64 @@ def run(ctx, col: Collector):
         col.check(nb == 0, 'C17-dispatch', 'no-direct-handler-calls', 'no registered SQL handler is called directly',
                   f'{nb} direct handler calls')
     guarded(col, 'C17-dispatch', 'DefaultSQLRenderer.render', before_dispatch)
+
+    def children_through_dispatcher():
+        """The required-attribute check lives in the dispatcher, so a container must render the child elements that have required attributes (enum items,
+        columns, indexes) THROUGH it; formatting a child's attributes by hand skips the check and writes `None` into the script."""
+        from .common import collect_filters, annotation_element_classes
+        rc = idx.cls('pydbml.renderer.sql.default.renderer', 'DefaultSQLRenderer')
+        sqlreg = idx.registry.get(rc.id, {})
+        required: Dict[str, List[str]] = {}
+        for ci in idx.classes.values():
+            ra = idx.const_tuple(idx.class_attr(ci.id, 'required_attributes')) if idx.class_attr(ci.id, 'required_attributes') is not None else None
+            if ra:
+                required[ci.name] = list(ra)
+        n = 0
+        for mid, fns in sorted(sqlreg.items()):
+            mcls = idx.classes[mid]
+            init = idx.lookup_method(mid, '__init__')
+            if init is None:
+                continue
+            for a in init.node.args.args[1:]:
+                elems = annotation_element_classes(a.annotation) or set()
+                kids = sorted(e for e in elems if e in required and any(idx.classes[k].name == e for k in sqlreg))
+                if not kids:
+                    continue
+                coll = a.arg
+                # only elements that are PART of the container's statement (its columns, indexes, items); collections that merely refer to elements owned
+                # elsewhere (index subjects, reference endpoints) are written by name and are not the element being rendered
+                if (mcls.name, coll) not in CONTAINED:
+                    continue
+                # every function of the handler's module that iterates <model>.<coll>
+                mods = {f.module for f in fns}
+                rendered = handmade = None
+                for fi in idx.all_funcs():
+                    if fi.module not in mods or not isinstance(fi.node, ast.FunctionDef) or not fi.node.args.args:
+                        continue
+                    p0 = fi.node.args.args[0].arg
+                    for flt in collect_filters(fi.node):
+                        if flt['iter'] != f'{p0}.{coll}':
+                            continue
+                        v = flt['var']
+                        elt = flt['elt']
+                        if ('.render(' in elt and f'({v})' in elt.replace(' ', '')) or f'{v}.sql' in elt:
+                            rendered = rendered or (fi, flt)
+                        elif any(f'{v}.{r}' in elt for k in kids for r in required[k]) or (elt != v and v in elt and '.render(' not in elt):
+                            handmade = handmade or (fi, flt)
+                n += 1
+                cons = f'{mcls.name}.{coll}:through-dispatcher'
+                if rendered:
+                    col.ok('C17-dispatch', cons, f'{rendered[0].qualname} renders the {"/".join(kids)} elements of {mcls.name}.{coll} through the dispatcher',
+                           node=rendered[0].node, file=rendered[0].file)
+                elif handmade:
+                    fi, flt = handmade
+                    col.bad('C17-dispatch', cons, f'{fi.qualname} formats the elements of {mcls.name}.{coll} itself (`{flt["elt"][:60]}`) instead of rendering them through '
+                            f'DefaultSQLRenderer.render / .sql: the required-attribute check ({", ".join(required[kids[0]])}) is skipped for them, so e.g. a nameless '
+                            f'{kids[0]} is written as None instead of raising AttributeMissingError', node=fi.node, file=fi.file)
+                else:
+                    col.unk('C17-dispatch', cons, f'how the {mcls.name} renderer renders its {coll} is not recognised', node=fns[0].node, file=fns[0].file)
+        col.floor('C17-dispatch', 'child collections with required attributes', n, 3)
+    guarded(col, 'C17-dispatch', 'children', children_through_dispatcher)
 
     # ---------------------------------------------------------------- C17-b
     def endpoint_validation():
